@@ -961,9 +961,10 @@ class InlineCall(StrCompareMixin, pmbl.CallWithKwargs):
     mapper_method = intern('map_inline_call')
 
     def __hash__(self):
-        # A custom `__hash__` function to protect us from unhashasble
-        # dicts that `pmbl.CallWithKwargs` uses internally
-        return hash(self.__getinitargs__())
+        # Hash the canonical string that `StrCompareMixin.__eq__` compares,
+        # so that equal calls have equal hashes. This also protects us from
+        # the unhashable dicts that `pmbl.CallWithKwargs` uses internally.
+        return StrCompareMixin.__hash__(self)
 
     @property
     def name(self):
